@@ -178,7 +178,7 @@ pub fn run(engine: &str, prop: &str, path: &str, v: &Value) -> i32 {
         }
         "cli" => {
             use crate::checks::c05::{has_answer_line, judge_valid, run as run_proc, Invocation};
-            let bin: &'static str = if case["bin"].as_str().unwrap().ends_with("crustabri_iccma23") { crate::checks::c05::BIN_ICCMA } else { crate::checks::c05::BIN_SOLVE };
+            let bin: &'static str = if case["bin"].as_str().unwrap().ends_with("crustabri_iccma23") { crate::checks::c05::bin_iccma() } else { crate::checks::c05::bin_solve() };
             let args: Vec<String> = case["args"].as_array().unwrap().iter().map(|a| a.as_str().unwrap().to_string()).collect();
             if let (Some(f), Some(content)) = (case["file"].as_str(), case["file_content"].as_array()) {
                 let bytes: Vec<u8> = content.iter().map(|b| b.as_u64().unwrap() as u8).collect();
